@@ -5482,6 +5482,29 @@ bool SoPlexBase<R>::computeBasisInverseRational()
       return false;
    }
 
+   // a factorization (or the SINGULAR verdict of a failed one) left behind by an exact solve may belong to a basis the
+   // solver has moved away from; keep it only if it was computed for the current set of basic variables
+   if(_rationalLUSolver.status() == SLinSolverRational::OK
+         || _rationalLUSolver.status() == SLinSolverRational::SINGULAR)
+   {
+      DataArray<int> current(numRows());
+      getBasisInd(current.get_ptr());
+      DataArray<int> loaded(_rationalLUSolverBind);
+      bool same = (current.size() == loaded.size());
+
+      if(same)
+      {
+         std::sort(current.get_ptr(), current.get_ptr() + current.size());
+         std::sort(loaded.get_ptr(), loaded.get_ptr() + loaded.size());
+
+         for(int i = 0; i < current.size() && same; i++)
+            same = (current[i] == loaded[i]);
+      }
+
+      if(!same)
+         _rationalLUSolver.clear();
+   }
+
    if(_rationalLUSolver.status() == SLinSolverRational::UNLOADED
          || _rationalLUSolver.status() == SLinSolverRational::TIME)
    {
@@ -5504,8 +5527,8 @@ bool SoPlexBase<R>::computeBasisInverseRational()
 template <class R>
 bool SoPlexBase<R>::getBasisIndRational(DataArray<int>& bind)
 {
-   if(_rationalLUSolver.status() != SLinSolverRational::OK)
-      computeBasisInverseRational();
+   // (re)computes the factorization unless a valid one for the current basis is loaded
+   computeBasisInverseRational();
 
    if(_rationalLUSolver.status() != SLinSolverRational::OK)
       return false;
@@ -5521,8 +5544,8 @@ bool SoPlexBase<R>::getBasisIndRational(DataArray<int>& bind)
 template <class R>
 bool SoPlexBase<R>::getBasisInverseRowRational(const int r, SSVectorRational& vec)
 {
-   if(_rationalLUSolver.status() != SLinSolverRational::OK)
-      computeBasisInverseRational();
+   // (re)computes the factorization unless a valid one for the current basis is loaded
+   computeBasisInverseRational();
 
    if(_rationalLUSolver.status() != SLinSolverRational::OK)
       return false;
@@ -5546,8 +5569,8 @@ bool SoPlexBase<R>::getBasisInverseRowRational(const int r, SSVectorRational& ve
 template <class R>
 bool SoPlexBase<R>::getBasisInverseColRational(const int c, SSVectorRational& vec)
 {
-   if(_rationalLUSolver.status() != SLinSolverRational::OK)
-      computeBasisInverseRational();
+   // (re)computes the factorization unless a valid one for the current basis is loaded
+   computeBasisInverseRational();
 
    if(_rationalLUSolver.status() != SLinSolverRational::OK)
       return false;
@@ -5575,8 +5598,8 @@ template <class R>
 bool SoPlexBase<R>::getBasisInverseTimesVecRational(const SVectorRational& rhs,
       SSVectorRational& sol)
 {
-   if(_rationalLUSolver.status() != SLinSolverRational::OK)
-      computeBasisInverseRational();
+   // (re)computes the factorization unless a valid one for the current basis is loaded
+   computeBasisInverseRational();
 
    if(_rationalLUSolver.status() != SLinSolverRational::OK)
       return false;
